@@ -4,7 +4,7 @@ package spec
 
 import "encoding/json"
 
-const vC17DocText = `{"swagger":"2.0","info":{"title":"t","version":"1"},"paths":{},"definitions":{"A":{"description":"a","properties":{"x":{"type":"string","x-e":1}}}}}`
+const vC17DocText = `{"swagger":"2.0","info":{"title":"t","version":"1"},"paths":{},"definitions":{"A":{"description":"a","properties":{"x":{"type":"string","x-e":1,"const":1}}}}}`
 
 // under the executor every thread body builds the shared value the same way and marks it shared
 func vSharedDoc() *Swagger {
